@@ -196,7 +196,12 @@ def _assemble_group(args):
         if err is not None:
             bad.append({"idx": items[0][0], "what": "assembly of valid expressions failed", "got": err, "source": src[:3000], "item": items[0][1]})
             return bad
-        mem = Reader(out).memory
+        try:
+            mem = Reader(out).memory
+        except BaseException as e:  # noqa: BLE001      the assembler reported success but its output does not load
+            bad.append({"idx": items[0][0], "what": "assembly of valid expressions produced an unreadable file", "got": f"{type(e).__name__}: {e}",
+                        "source": src[:3000], "item": items[0][1]})
+            return bad
         for idx, it in items:
             v = ival(it["v"])
             o = first_op[idx]
